@@ -4,4 +4,5 @@ let () =
   | _ :: "plan-check" :: _ -> Plan_suite.run ()
   | _ :: "exec-check" :: _ -> Exec_suite.run ()
   | _ :: "world-check" :: _ -> World_suite.run ()
+  | _ :: "sysdata-check" :: _ -> Sysdata_suite.run ()
   | _ -> prerr_endline "usage: driver <suite>-check < lines"; exit 2
